@@ -1,5 +1,9 @@
 import Srtla.Model.Stall
+import Srtla.Model.Link
+import Srtla.Model.Sys
 import Srtla.Lemmas.StallLatch
+import Srtla.Lemmas.SelGate
+import Srtla.Props.C04
 /-!
 # C13 — stall latch: quick to drop, conservative to rejoin, never blind
 
@@ -22,6 +26,15 @@ Times are arbitrary naturals: no monotonicity of the clock is assumed anywhere (
 the code's saturating subtractions).
 
 "older than the window" is formalised as `age ≥ window` (the code's comparison).
+
+Round 2 additions:
+* §9 "out of rotation" at `select_connection_idx` level: `stall_gated ⇔ (latched ∨ pulled) ∧ a healthy
+  link exists`, a gated link is never returned (both modes), and the exception — no healthy
+  alternative ⇒ nobody is gated, the latched link stays eligible (C03) — is a theorem.
+* §10 a single ACK never releases over ANY number of passes (the only place a monotone clock is used).
+* §11 the alphabet is tied to the full link model (`Model/Link.lean`, `Model/Sys.lean`):
+  `reset` = `reset_core_state`, `mark_for_recovery` / `reset_for_reconnect` = `reset ; env`,
+  REG3 = `env`, the shell's scheduling step = `env ; sel|selOff ; env ; env`.
 -/
 namespace Srtla.Props.C13
 open Srtla.Select Srtla.StallLatch Srtla
@@ -514,7 +527,7 @@ theorem C13_gate_is_per_link_pass (ls : List (SLink F)) (now : Nat) (cfg : Cfg) 
          if cfg.stallDeselect = true then .sel now cfg.stallMinInFlight cfg.stallCeilingMs else .selOff,
          .env e2]) := by
   by_cases h : cfg.stallDeselect = true
-  · obtain ⟨a, ha⟩ := applyStallGate_on ls now cfg h
+  · obtain ⟨a, ha⟩ := StallLatch.applyStallGate_on ls now cfg h
     rw [ha, if_pos h, List.getElem?_map, List.getElem?_eq_getElem hi]
     refine ⟨{ ls[i] with connTimeoutMs := cfg.connTimeoutMs },
       gateStamp a (sel { ls[i] with connTimeoutMs := cfg.connTimeoutMs } now cfg.stallMinInFlight
@@ -522,7 +535,7 @@ theorem C13_gate_is_per_link_pass (ls : List (SLink F)) (now : Nat) (cfg : Cfg) 
     simp only [Option.map_some, run, List.foldl_cons, List.foldl_nil, step]
     rw [envStep_setTimeout, envStep_gateStamp]
   · have h' : cfg.stallDeselect = false := by simpa using h
-    rw [applyStallGate_off ls now cfg h', if_neg h, List.getElem?_map, List.getElem?_eq_getElem hi]
+    rw [StallLatch.applyStallGate_off ls now cfg h', if_neg h, List.getElem?_map, List.getElem?_eq_getElem hi]
     refine ⟨{ ls[i] with connTimeoutMs := cfg.connTimeoutMs },
       selOff { ls[i] with connTimeoutMs := cfg.connTimeoutMs }, ?_⟩
     simp only [Option.map_some, run, List.foldl_cons, List.foldl_nil, step]
@@ -538,7 +551,7 @@ theorem C13_gate_private_fields (ls : List (SLink F)) (now : Nat) (cfg : Cfg) (i
       c'.latchedSince = p.latchedSince ∧ c'.recoverySince = p.recoverySince ∧
       c'.gateEvents = p.gateEvents ∧ c'.silencePulled = p.silencePulled ∧
       c'.pullMark = p.pullMark ∧ c'.silencePulls = p.silencePulls := by
-  obtain ⟨a, ha⟩ := applyStallGate_on ls now cfg h
+  obtain ⟨a, ha⟩ := StallLatch.applyStallGate_on ls now cfg h
   rw [ha, List.getElem?_map, List.getElem?_eq_getElem hi]
   exact ⟨_, rfl, rfl, rfl, rfl, rfl, rfl, rfl⟩
 
@@ -546,5 +559,460 @@ example :
     let l0 := { ex0 with inFlight := 40, proofMs := 2000 }
     ((applyStallGate [l0, ex0] 5000 {}).map (·.latchedSince)) = [5000, 0] ∧
     ((applyStallGate [l0, ex0] 5000 {}).map (·.stallGated)) = [true, false] := by decide
+
+/-! ## 9. "Out of rotation" and "rejoins", at the level of `select_connection_idx`
+
+Sections 2-8 speak about `latchedSince` / `silencePulled`.  What takes a link out of the rotation is
+the flag `stall_gated` that `apply_stall_gate` stamps at the end of every pass:
+`stall_gated = any_healthy && (latched || pulled)`, and both selectors skip a `stall_gated` link.
+So the precise meaning of the property's "out of rotation" is
+
+  *a latched (or silence-pulled) link is never preferred over a healthy link*;
+
+it is NOT "a latched link is never routed": when no healthy alternative exists the latched link is
+not gated and competes like any other link — which is exactly what C03 (no blackout) demands.
+All statements below are about the state and the decision `select_connection_idx` leaves behind,
+in BOTH modes, for any scalar instance (`Float` included). -/
+
+/-- The *healthy alternative* of `apply_stall_gate` (`any_healthy`): connected, not timed out,
+registered, not latched and not silence-pulled. -/
+def Healthy (c : SLink F) (now : Nat) : Prop :=
+  c.connected = true ∧ isTimedOut c now = false ∧ c.phase ≠ .registering ∧
+    c.latchedSince = 0 ∧ c.silencePulled = false
+
+theorem healthy_iff (c : SLink F) (now : Nat) : healthy now c = true ↔ Healthy c now := by
+  unfold healthy Healthy schedulable latched
+  simp only [Bool.and_eq_true, Bool.not_eq_true', bne_iff_ne, ne_eq, bne_eq_false_iff_eq]
+  constructor
+  · rintro ⟨⟨⟨⟨h1, h2⟩, h3⟩, h4⟩, h5⟩; exact ⟨h1, h2, h3, h4, h5⟩
+  · rintro ⟨h1, h2, h3, h4, h5⟩; exact ⟨⟨⟨⟨h1, h2⟩, h3⟩, h4⟩, h5⟩
+
+section rotation
+variable [Scalar F]
+
+/-- **What `stall_gated` means after a pass with the guard on** (either mode): a link is gated iff
+it is latched or silence-pulled AND some link of the same pass is healthy. -/
+theorem C13_gated_iff (ls : List (SLink F)) (last : Option Nat) (now : Nat) (cfg : Cfg)
+    (hon : cfg.stallDeselect = true) (c : SLink F) (hc : c ∈ (selectIdx ls last now cfg).1) :
+    c.stallGated = true ↔
+      (c.latchedSince ≠ 0 ∨ c.silencePulled = true) ∧
+      ∃ d ∈ (selectIdx ls last now cfg).1, Healthy d now := by
+  rw [selectIdx_on_gated ls last now cfg hon c hc]
+  simp only [Bool.and_eq_true, Bool.or_eq_true, List.any_eq_true, latched, bne_iff_ne, ne_eq]
+  constructor
+  · rintro ⟨⟨d, hd, hh⟩, hl⟩; exact ⟨hl, d, hd, (healthy_iff d now).1 hh⟩
+  · rintro ⟨hl, d, hd, hh⟩; exact ⟨⟨d, hd, (healthy_iff d now).2 hh⟩, hl⟩
+
+/-- **A stall-gated link is never the returned index** — classic or enhanced mode, quality scoring
+on or off, also on the hysteresis path (`last = some i`), guard on or off (reuses
+`C04_selector_eligible`). -/
+theorem C13_gated_never_selected (ls : List (SLink F)) (last : Option Nat) (now : Nat) (cfg : Cfg)
+    (i : Nat) (c : SLink F) (hc : (selectIdx ls last now cfg).1[i]? = some c)
+    (hg : c.stallGated = true) : (selectIdx ls last now cfg).2 ≠ some i := by
+  intro h
+  obtain ⟨c', hc', -, -, hg', -⟩ := C04.C04_selector_eligible ls last now cfg i h
+  rw [hc] at hc'
+  cases hc'
+  rw [hg] at hg'
+  cases hg'
+
+/-- **Out of rotation.**  After a selection pass with the guard on, a link that is latched
+(`latchedSince ≠ 0`) or silence-pulled is `stall_gated` IFF a healthy alternative exists among the
+links of the pass; a `stall_gated` link is not the returned index; hence a latched / pulled link is
+never returned while a healthy link exists — in both modes, whatever `last` is. -/
+theorem C13_latched_out_of_rotation (ls : List (SLink F)) (last : Option Nat) (now : Nat) (cfg : Cfg)
+    (hon : cfg.stallDeselect = true) (i : Nat) (c : SLink F)
+    (hc : (selectIdx ls last now cfg).1[i]? = some c)
+    (hl : c.latchedSince ≠ 0 ∨ c.silencePulled = true) :
+    (c.stallGated = true ↔ ∃ d ∈ (selectIdx ls last now cfg).1, Healthy d now) ∧
+    (c.stallGated = true → (selectIdx ls last now cfg).2 ≠ some i) ∧
+    ((∃ d ∈ (selectIdx ls last now cfg).1, Healthy d now) → (selectIdx ls last now cfg).2 ≠ some i) := by
+  have hmem : c ∈ (selectIdx ls last now cfg).1 := List.mem_of_getElem? hc
+  have hiff := C13_gated_iff ls last now cfg hon c hmem
+  have hns := C13_gated_never_selected ls last now cfg i c hc
+  exact ⟨⟨fun h => (hiff.1 h).2, fun h => hiff.2 ⟨hl, h⟩⟩, hns, fun h => hns (hiff.2 ⟨hl, h⟩)⟩
+
+/-- Contrapositive reading ("never preferred over a healthy link"): if the pass returns a latched
+or pulled link then NO link of the pass was healthy. -/
+theorem C13_selected_latched_only_without_alternative (ls : List (SLink F)) (last : Option Nat) (now : Nat)
+    (cfg : Cfg) (hon : cfg.stallDeselect = true) (i : Nat) (c : SLink F)
+    (hc : (selectIdx ls last now cfg).1[i]? = some c)
+    (hl : c.latchedSince ≠ 0 ∨ c.silencePulled = true)
+    (hsel : (selectIdx ls last now cfg).2 = some i) :
+    ¬ ∃ d ∈ (selectIdx ls last now cfg).1, Healthy d now :=
+  fun h => (C13_latched_out_of_rotation ls last now cfg hon i c hc hl).2.2 h hsel
+
+/-- Guard off: the call leaves no link gated (see also `C12_off_clears`). -/
+theorem C13_off_not_gated (ls : List (SLink F)) (last : Option Nat) (now : Nat) (cfg : Cfg)
+    (hoff : cfg.stallDeselect = false) : ∀ c ∈ (selectIdx ls last now cfg).1, c.stallGated = false := by
+  intro c hc
+  obtain ⟨f, hf, e⟩ := selectIdx_fst ls last now cfg
+  rw [e, Select.applyStallGate_off ls now cfg hoff, List.map_map] at hc
+  obtain ⟨c0, -, rfl⟩ := List.mem_map.1 hc
+  simp only [Function.comp_apply]
+  rw [(hf (guardOff cfg c0)).stallGated]
+  rfl
+
+/-- **The exception, stated explicitly.**  With no healthy alternative NO link is stall-gated after
+the pass: a latched / pulled link stays in the rotation and is eligible exactly when it is
+connected, registered and not timed out (`C04_selector_eligible`'s other three conditions).  This
+is what C03 requires (`C03_gate_spares_usable`, `C03_no_blackout`: a usable link always gets the
+packet).  Holds with the guard off too (then nothing is ever gated). -/
+theorem C13_no_alternative_stays_eligible (ls : List (SLink F)) (last : Option Nat) (now : Nat) (cfg : Cfg)
+    (hno : ¬ ∃ d ∈ (selectIdx ls last now cfg).1, Healthy d now) :
+    ∀ c ∈ (selectIdx ls last now cfg).1, c.stallGated = false := by
+  intro c hc
+  cases hon : cfg.stallDeselect
+  · exact C13_off_not_gated ls last now cfg hon c hc
+  · cases hg : c.stallGated
+    · rfl
+    · exact absurd ((C13_gated_iff ls last now cfg hon c hc).1 hg).2 hno
+
+/-- **A latched link that is the only usable one is still routed** (classic mode, any scalar; the
+enhanced-mode counterpart is `C03_no_blackout` + `C04_selector_eligible` over the ordered-field
+scalar).  If link `i` is connected, registered, not timed out, has a non-negative window, and no
+other link is connected, registered and not timed out, then `select_connection_idx` returns `i` —
+latched or not, pulled or not, guard on or off. -/
+theorem C13_latched_sole_usable_still_routed_classic (ls : List (SLink F)) (last : Option Nat) (now : Nat)
+    (cfg : Cfg) (hcl : cfg.classic = true) (i : Nat) (c : SLink F)
+    (hc : (selectIdx ls last now cfg).1[i]? = some c)
+    (hu : c.connected = true ∧ isTimedOut c now = false ∧ c.phase ≠ .registering) (hw : 0 ≤ c.window)
+    (hsole : ∀ j d, (selectIdx ls last now cfg).1[j]? = some d →
+      d.connected = true → isTimedOut d now = false → d.phase ≠ .registering → j = i) :
+    (selectIdx ls last now cfg).2 = some i := by
+  have hmem : c ∈ (selectIdx ls last now cfg).1 := List.mem_of_getElem? hc
+  -- the link is not gated: a healthy alternative would be usable, hence be the link itself
+  have hng : c.stallGated = false := by
+    cases hg : c.stallGated
+    · rfl
+    · have hon : cfg.stallDeselect = true := by
+        cases hon : cfg.stallDeselect
+        · have := C13_off_not_gated ls last now cfg hon c hmem
+          rw [hg] at this; cases this
+        · rfl
+      obtain ⟨hl, d, hd, hh⟩ := (C13_gated_iff ls last now cfg hon c hmem).1 hg
+      obtain ⟨j, hj⟩ := List.getElem?_of_mem hd
+      have hji := hsole j d hj hh.1 hh.2.1 hh.2.2.1
+      subst hji
+      rw [hc] at hj
+      cases hj
+      rcases hl with hl | hl
+      · exact absurd hh.2.2.2.1 hl
+      · rw [hh.2.2.2.2] at hl; cases hl
+  have hsel : selectIdx ls last now cfg =
+      (applyStallGate ls now cfg, classicSelect (applyStallGate ls now cfg) now) := by
+    unfold selectIdx; simp [hcl]
+  have hne : (selectIdx ls last now cfg).2 ≠ none := by
+    rw [hsel] at hmem ⊢
+    show classicGo _ 0 now none (-1) ≠ none
+    apply SelLemmas.classicGo_picks _ 0 now
+    refine ⟨c, hmem, hu.2.1, ?_, hng, ?_⟩
+    · unfold schedulable; simpa using hu.2.2
+    · unfold score
+      rw [hu.1]
+      simp only [Bool.not_true, Bool.false_eq_true, if_false]
+      exact Int.ediv_nonneg hw (by omega)
+  cases hr : (selectIdx ls last now cfg).2 with
+  | none => exact absurd hr hne
+  | some j =>
+    obtain ⟨d, hd, h1, h2, -, h4⟩ := C04.C04_selector_eligible ls last now cfg j hr
+    have hji := hsole j d hd h4 h2 (by unfold schedulable at h1; simpa using h1)
+    rw [hji]
+
+
+/-- Two links at `now = 5000` (defaults: enhanced, guard on).  Link 0 has by far the better score
+(20000/41 against 1000/11) but is latched (proof 4000 ms old, 40 in flight); link 1 is healthy. -/
+def exRot : List (SLink Int) :=
+  [ { connId := 1, window := 20000, inFlight := 40, lastReceived := some 4990, proofMs := 1000,
+      latchedSince := 1500, srtt := 0, rttMin := 0, bitrate := 0, qualMult := 1000 },
+    { connId := 2, window := 1000, inFlight := 10, lastReceived := some 4990, srtt := 0, rttMin := 0,
+      bitrate := 0, qualMult := 1000 } ]
+
+/-- The same with link 1 disconnected: no healthy alternative. -/
+def exRotAlone : List (SLink Int) :=
+  [ { connId := 1, window := 20000, inFlight := 40, lastReceived := some 4990, proofMs := 1000,
+      latchedSince := 1500, srtt := 0, rttMin := 0, bitrate := 0, qualMult := 1000 },
+    { connId := 2, connected := false, window := 1000, inFlight := 10, lastReceived := some 4990, srtt := 0,
+      rttMin := 0, bitrate := 0, qualMult := 1000 } ]
+
+/-- Hypotheses of `C13_latched_out_of_rotation` met (link 0 latched after the pass, link 1 healthy):
+link 0 is gated and link 1 is returned, in both modes, also when link 0 was the previous pick.
+Without the alternative (`exRotAlone`, hypotheses of `C13_no_alternative_stays_eligible` /
+`C13_latched_sole_usable_still_routed_classic`) link 0 stays latched, is NOT gated and is returned. -/
+example :
+    ((@selectIdx Int fixScalar exRot (some 0) 5000 {}).1.map fun c => (c.latchedSince, c.stallGated))
+      = [(1500, true), (0, false)] ∧
+    (@selectIdx Int fixScalar exRot (some 0) 5000 {}).2 = some 1 ∧
+    (@selectIdx Int fixScalar exRot (some 0) 5000 { classic := true }).2 = some 1 ∧
+    ((@selectIdx Int fixScalar exRotAlone none 5000 {}).1.map fun c => (c.latchedSince, c.stallGated))
+      = [(1500, false), (0, false)] ∧
+    (@selectIdx Int fixScalar exRotAlone none 5000 {}).2 = some 0 ∧
+    (@selectIdx Int fixScalar exRotAlone none 5000 { classic := true }).2 = some 0 := by
+  decide +kernel
+
+example : ∃ d ∈ (@selectIdx Int fixScalar exRot (some 0) 5000 {}).1, Healthy d 5000 := by
+  refine ⟨_, List.mem_cons_of_mem _ List.mem_cons_self, ?_⟩
+  unfold Healthy
+  decide +kernel
+
+end rotation
+
+/-! ## 10. A single ACK never releases, over any number of passes (monotone clock) -/
+
+/-- The steps that may follow the single proof stamp `t0`: scheduling passes at a time `≥ t0`
+(a monotone clock puts every later pass there) and environment steps that bring NO further proof
+(`e.proofMs = 0`: `envStep` then keeps the stamp).  Resets and guard-off passes are excluded — they
+un-latch by definition (`C13_unlatch_only_by`). -/
+def NoNewProof (t0 : Nat) : Step F → Prop
+  | .sel now _ _ => t0 ≤ now
+  | .env e => e.proofMs = 0
+  | .selOff => False
+  | .reset => False
+
+instance (t0 : Nat) (st : Step F) : Decidable (NoNewProof t0 st) := by
+  cases st <;> unfold NoNewProof <;> infer_instance
+
+/-- **A single ACK never releases (multi-pass form).**  A latched link whose delivery-proof stamp is
+`t0` (one ACK or keepalive echo at `t0`) and whose recovery run, if any, did not start before `t0`
+(in particular `recoverySince = 0`: the pass before the ACK saw stale proof) stays latched through
+ANY number of later passes — at any times `≥ t0`, with any thresholds, ceilings and RTT baselines,
+interleaved with arbitrary environment changes — as long as no further proof arrives.
+Reason (`C13_release_iff`): a releasing pass at `now` needs `now − t0 < window` and
+`now − run start ≥ 2 × window`, but the run cannot have started before `t0`. -/
+theorem C13_single_ack_never_releases_run (c : SLink F) (t0 : Nat) (steps : List (Step F))
+    (hl : c.latchedSince ≠ 0) (hp : c.proofMs = t0)
+    (hr : c.recoverySince = 0 ∨ t0 ≤ c.recoverySince)
+    (hs : ∀ st ∈ steps, NoNewProof t0 st) :
+    (run c steps).latchedSince ≠ 0 ∧ (run c steps).proofMs = t0 ∧
+    ((run c steps).recoverySince = 0 ∨ t0 ≤ (run c steps).recoverySince) := by
+  induction steps using snoc_induction with
+  | nil => exact ⟨hl, hp, hr⟩
+  | snoc l st ih =>
+    obtain ⟨il, ip, ir⟩ := ih (fun x hx => hs x (by simp [hx]))
+    have hst : NoNewProof t0 st := hs st (by simp)
+    rw [run_snoc]
+    generalize run c l = d at il ip ir
+    cases st with
+    | selOff => exact absurd hst id
+    | reset => exact absurd hst id
+    | env e =>
+      have he : e.proofMs = 0 := hst
+      refine ⟨il, ?_, ir⟩
+      show (if e.proofMs = 0 then d.proofMs else e.proofMs) = t0
+      rw [if_pos he]; exact ip
+    | sel now m cl =>
+      have hnow : t0 ≤ now := hst
+      show (sel d now m cl).latchedSince ≠ 0 ∧ (sel d now m cl).proofMs = t0 ∧
+        ((sel d now m cl).recoverySince = 0 ∨ t0 ≤ (sel d now m cl).recoverySince)
+      have hkeep : (sel d now m cl).latchedSince ≠ 0 := by
+        intro h
+        obtain ⟨⟨-, hf⟩, hd⟩ := (C13_release_iff d now m cl il).mp h
+        rw [ip] at hf
+        split at hd
+        · omega
+        · rcases ir with ir | ir
+          · contradiction
+          · omega
+      refine ⟨hkeep, by rw [(sel_inputs d now m cl).1]; exact ip, ?_⟩
+      rcases sel_latch_cases d now m cl with ⟨-, -, -, -, e⟩ | ⟨-, -, -, -, -, e⟩ | ⟨h0, -⟩ |
+          ⟨-, -, -, -, e⟩ | ⟨-, -, -, -, -, e⟩ | ⟨-, -, -, -, -, e⟩
+      · exact Or.inl e
+      · exact Or.inl e
+      · exact absurd h0 il
+      · exact Or.inl e
+      · exact Or.inl e
+      · rw [e]; unfold runStart
+        split
+        · exact Or.inr hnow
+        · rcases ir with ir | ir
+          · contradiction
+          · exact Or.inr ir
+
+/-- Times of the scheduling passes of a history, in order. -/
+def passTimes : List (Step F) → List Nat
+  | [] => []
+  | .sel now _ _ :: t => now :: passTimes t
+  | _ :: t => passTimes t
+
+theorem mem_passTimes {steps : List (Step F)} {now : Nat} {m : Int} {cl : Nat}
+    (h : Step.sel now m cl ∈ steps) : now ∈ passTimes steps := by
+  induction steps with
+  | nil => cases h
+  | cons a t ih =>
+    rcases List.mem_cons.1 h with h' | h'
+    · subst h'; simp [passTimes]
+    · have := ih h'
+      cases a <;> simp [passTimes, this]
+
+/-- The same under an explicit **monotone clock**: the stamp `t0` followed by the pass times is a
+non-decreasing sequence, the history consists of passes and of environment steps without proof. -/
+theorem C13_single_ack_never_releases_monotone (c : SLink F) (t0 : Nat) (steps : List (Step F))
+    (hl : c.latchedSince ≠ 0) (hp : c.proofMs = t0) (hr : c.recoverySince = 0)
+    (hmono : (t0 :: passTimes steps).Pairwise (· ≤ ·))
+    (hs : ∀ st ∈ steps, (∃ now m cl, st = .sel now m cl) ∨ (∃ e, st = .env e ∧ e.proofMs = 0)) :
+    (run c steps).latchedSince ≠ 0 := by
+  refine (C13_single_ack_never_releases_run c t0 steps hl hp (Or.inl hr) ?_).1
+  intro st hst
+  rcases hs st hst with ⟨now, m, cl, rfl⟩ | ⟨e, rfl, he⟩
+  · exact (List.pairwise_cons.1 hmono).1 now (mem_passTimes hst)
+  · exact he
+
+/-- ACK at 9000 on a link latched since 4000; passes at 9500, 10500, 11999 (all with fresh proof, a
+recovery run from 9500) and, after the proof went stale, at 13000 and 10⁶: still latched.  Had a second
+ACK arrived (`proofMs := 15000`) the pass at 15500 = 9500 + 2 × 3000 would have released. -/
+example :
+    let c := { ex0 with latchedSince := 4000, proofMs := 9000 }
+    let tr : List (Step Unit) := [.sel 9500 32 3000, .env { ex0 with inFlight := 0 }, .sel 10500 32 3000,
+      .sel 11999 32 3000, .sel 13000 32 3000, .sel 1000000 32 3000]
+    (∀ st ∈ tr, NoNewProof 9000 st) ∧ (9000 :: passTimes tr).Pairwise (· ≤ ·) ∧
+    (run c tr).latchedSince = 4000 ∧
+    (run c [.sel 9500 32 3000, .sel 11999 32 3000, .env { ex0 with proofMs := 15000 },
+      .sel 15500 32 3000]).latchedSince = 0 := by decide
+
+/-- Why the clock hypothesis is there: with a clock that runs BACKWARDS (pass at 1000 after an ACK
+stamped 10000: the saturating age is 0, "fresh") a run is recorded from 1000, and the pass at 10500
+releases on that single ACK.  `utils::now_ms()` is monotone in practice; the theorem above says
+monotonicity is all that is needed. -/
+example :
+    let c := { ex0 with latchedSince := 500, proofMs := 10000 }
+    (run c [.sel 1000 32 3000, .sel 10500 32 3000]).latchedSince = 0 := by decide
+
+/-! ## 11. The step alphabet is tied to the validated link model
+
+`reset` (Lemmas/StallLatch.lean) was written from reading `reset_core_state`.  `Model/Link.lean`
+holds the full `SrtlaConnection` (`FLink`), is run bit-for-bit against the real shell by component
+`sys`, and has the three real reset entry points `mark_for_recovery`, `reset_for_reconnect`
+(both call `reset_core_state`) and `clear_pre_registration_state` (REG3).  Seen through the
+selection view `toSLink` they are, respectively, `reset ; env`, `reset ; env` and `env` of the
+alphabet — so every history theorem above applies to the projection of a shell run. -/
+
+section alphabet
+variable [Scalar F]
+open Srtla.Link
+
+/-- `reset_core_state` of the link model IS `reset` on the selection view (it additionally empties
+the batch queue, a field no guard theorem reads). -/
+theorem C13_reset_is_model_reset (l : FLink F) :
+    l.resetCoreState.toSLink = { reset l.toSLink with queued := 0 } := rfl
+
+/-- … in particular on every field the guard reads or writes. -/
+theorem C13_reset_guard_fields (l : FLink F) :
+    let s := l.resetCoreState.toSLink
+    s.latchedSince = 0 ∧ s.recoverySince = 0 ∧ s.silencePulled = false ∧ s.pullMark = none ∧
+    s.stallGated = false ∧ s.probeCounter = 0 ∧ s.proofMs = 0 ∧ s.connected = false ∧ s.inFlight = 0 ∧
+    s.gateEvents = l.gateEvents ∧ s.silencePulls = l.silencePulls ∧
+    s.srttPos = l.toSLink.srttPos ∧ s.srttTrunc = l.toSLink.srttTrunc ∧
+    s.lastReceived = l.core.lastReceived :=
+  ⟨rfl, rfl, rfl, rfl, rfl, rfl, rfl, rfl, rfl, rfl, rfl, rfl, rfl, rfl⟩
+
+/-- `mark_for_recovery` (send failure, REG_ERR, timeout tear-down) projects to `reset ; env`. -/
+theorem C13_markForRecovery_is_reset (l : FLink F) :
+    l.markForRecovery.toSLink = run l.toSLink [.reset, .env l.markForRecovery.toSLink] := by
+  show _ = envStep (reset l.toSLink) l.markForRecovery.toSLink
+  exact (envStep_eq _ _ rfl rfl rfl rfl rfl rfl rfl).symm
+
+/-- `reset_for_reconnect` (housekeeping's re-registration attempt) projects to `reset ; env`. -/
+theorem C13_resetForReconnect_is_reset (l : FLink F) (now : Nat) :
+    (l.resetForReconnect now).toSLink = run l.toSLink [.reset, .env (l.resetForReconnect now).toSLink] := by
+  show _ = envStep (reset l.toSLink) (l.resetForReconnect now).toSLink
+  exact (envStep_eq _ _ rfl rfl rfl rfl rfl rfl rfl).symm
+
+/-- `clear_pre_registration_state` (REG3) touches none of the guard's fields nor the proof stamp:
+it is an `env` step. -/
+theorem C13_reg3_is_env (l : FLink F) (now : Nat) :
+    (l.clearPreRegistration now).toSLink = run l.toSLink [.env (l.clearPreRegistration now).toSLink] := by
+  show _ = envStep l.toSLink (l.clearPreRegistration now).toSLink
+  exact (envStep_eq _ _ rfl rfl rfl rfl rfl rfl rfl).symm
+
+/-- Writing a selection result back into the full link (`FLink.absorb`) and projecting again gives
+that result, provided it agrees with the link on the frame (which `C12_frame` guarantees). -/
+theorem toSLink_absorb (l : FLink F) (x : SLink F) (hf : frame x = frame l.toSLink) :
+    (l.absorb x).toSLink = x := by
+  obtain ⟨a1, a2, a3, a4, a5, a6, a7, a8, a9, a10, a11, a12, a13, a14, a15, a16, a17, a18, a19, a20, a21,
+    a22, a23, a24, a25, a26, a27, a28, a29, a30, a31, a32, a33⟩ := x
+  simp only [frame, FLink.toSLink, Frame.mk.injEq] at hf
+  obtain ⟨rfl, rfl, rfl, rfl, rfl, rfl, rfl, rfl, rfl, rfl, rfl, rfl, rfl, rfl, rfl, rfl, rfl, rfl, rfl, rfl,
+    rfl, rfl, rfl⟩ := hf
+  rfl
+
+/-- **The shell's scheduling step is a pass of the alphabet.**  For every link of the shell model
+(`Model/Sys.lean`, `runSelect` = `select_connection_idx` on the live connections + write-back), the
+selection view after the step is the view before it taken through
+`env ; sel (guard on) | selOff (guard off) ; env ; env` (config stamp; the pass; the `stall_gated`
+stamp; the quality-cache refresh).  Together with the reset lemmas: the selection-view projection of
+any shell run is a `Step` history, so sections 2-10 apply to it. -/
+theorem C13_shell_select_is_pass (s : Sys.Sys F) (now : Nat) (i : Nat) (l l' : FLink F)
+    (hl : s.links[i]? = some l) (hl' : (Sys.runSelect s now).1.links[i]? = some l') :
+    ∃ e1 e2 e3 : SLink F, l'.toSLink = run l.toSLink
+      [.env e1,
+       if s.cfg.stallDeselect = true then .sel now s.cfg.stallMinInFlight s.cfg.stallCeilingMs else .selOff,
+       .env e2, .env e3] := by
+  change ((s.links.zip (selectIdx (s.links.map FLink.toSLink) s.lastSelected now s.cfg).1).map
+    fun p => p.1.absorb p.2)[i]? = some l' at hl'
+  rw [List.getElem?_map] at hl'
+  obtain ⟨⟨a, x⟩, hax, hl'x⟩ := Option.map_eq_some_iff.1 hl'
+  obtain ⟨ha, hx⟩ := List.getElem?_zip_eq_some.1 hax
+  rw [hl] at ha
+  have hal : l = a := Option.some.inj ha
+  subst hal
+  have hl'x : l' = l.absorb x := hl'x.symm
+  subst hl'x
+  have hl0 : (s.links.map FLink.toSLink)[i]? = some l.toSLink := by rw [List.getElem?_map, hl]; rfl
+  -- the result agrees with the link on the frame (`C12_frame`)
+  have hfr : frame x = frame l.toSLink := by
+    obtain ⟨g, hg, hp⟩ := selectIdx_map (s.links.map FLink.toSLink) s.lastSelected now s.cfg
+    rw [hg, List.getElem?_map, hl0] at hx
+    have hgx : g l.toSLink = x := Option.some.inj hx
+    rw [← hgx]
+    exact (hp l.toSLink).1
+  rw [toSLink_absorb l x hfr]
+  -- `x` is the gate's output up to the quality cache
+  obtain ⟨f, hf, e⟩ := selectIdx_fst (s.links.map FLink.toSLink) s.lastSelected now s.cfg
+  rw [e, List.getElem?_map] at hx
+  obtain ⟨y, hy, hxy⟩ := Option.map_eq_some_iff.1 hx
+  have hi : i < (s.links.map FLink.toSLink).length := (List.getElem?_eq_some_iff.1 hl0).1
+  obtain ⟨e1, e2, hg⟩ := C13_gate_is_per_link_pass (s.links.map FLink.toSLink) now s.cfg i hi
+  rw [hy] at hg
+  have hy' := Option.some.inj hg
+  have hli : (s.links.map FLink.toSLink)[i] = l.toSLink := by
+    have := List.getElem?_eq_getElem hi
+    rw [hl0] at this
+    exact (Option.some.inj this).symm
+  rw [hli] at hy'
+  refine ⟨e1, e2, f y, ?_⟩
+  obtain ⟨q, t, hq⟩ := hf y
+  have henv : envStep y (f y) = f y := by
+    rw [hq]; exact envStep_eq _ _ rfl rfl rfl rfl rfl rfl rfl
+  have hxy' : x = f y := hxy.symm
+  rw [hxy']
+  have hsplit : ∀ (p : Step F), run l.toSLink [.env e1, p, .env e2, .env (f y)] =
+      step (run l.toSLink [.env e1, p, .env e2]) (.env (f y)) := fun p =>
+    run_snoc l.toSLink [.env e1, p, .env e2] (.env (f y))
+  rw [hsplit, ← hy']
+  exact henv.symm
+
+/-- Consequently both real resets leave the link un-latched, un-pulled and without proof, whatever
+happened before (instance of the `reset` arm of `C13_unlatch_only_by` / `neverInv_step`). -/
+theorem C13_model_resets_unlatch (l : FLink F) (now : Nat) :
+    l.markForRecovery.toSLink.latchedSince = 0 ∧ l.markForRecovery.toSLink.silencePulled = false ∧
+    l.markForRecovery.toSLink.proofMs = 0 ∧
+    (l.resetForReconnect now).toSLink.latchedSince = 0 ∧ (l.resetForReconnect now).toSLink.silencePulled = false ∧
+    (l.resetForReconnect now).toSLink.proofMs = 0 :=
+  ⟨rfl, rfl, rfl, rfl, rfl, rfl⟩
+
+/-- A latched, pulled link with a full history: both resets clear it, REG3 does not touch it. -/
+example :
+    let l : FLink Int := { (@FLink.newRegistering Int fixScalar 7 100) with
+      latchedSince := 4000, recoverySince := 4500, gateEvents := 3, silencePulled := true,
+      pullMark := some 3900, silencePulls := 2, core := { connId := 7, connected := true, proofMs := 3000 } }
+    ((@FLink.toSLink Int fixScalar l.markForRecovery).latchedSince,
+     (@FLink.toSLink Int fixScalar l.markForRecovery).gateEvents,
+     (@FLink.toSLink Int fixScalar l.markForRecovery).proofMs) = (0, 3, 0) ∧
+    ((@FLink.toSLink Int fixScalar (@FLink.clearPreRegistration Int fixScalar l 5000)).latchedSince,
+     (@FLink.toSLink Int fixScalar (@FLink.clearPreRegistration Int fixScalar l 5000)).silencePulled,
+     (@FLink.toSLink Int fixScalar (@FLink.clearPreRegistration Int fixScalar l 5000)).proofMs) = (4000, true, 3000) := by
+  decide +kernel
+
+end alphabet
 
 end Srtla.Props.C13
